@@ -140,7 +140,8 @@ func aliasedInput(id int) (input any, variable any) {
 		return map[string]any{"a": map[string]any{"b": leaf}, "c": leaf, "d": []any{leaf, leaf}}, leaf
 	case 4:
 		b := new(big.Int).Lsh(big.NewInt(1), 70)
-		return []any{b, b, map[string]any{"n": b}, json.Number("1.50"), 3}, []any{b}
+		nb := new(big.Int).Neg(b)
+		return []any{b, nb, map[string]any{"n": b, "m": nb}, json.Number("1.50"), 3, nb, b}, []any{b, nb}
 	case 5:
 		root := sentinelSlice(3, 10, map[string]any{"a": 1}, []any{2, 3}, "s")
 		return root, root[:1]
@@ -413,6 +414,18 @@ func sweepPrograms(r interface{ IntN(int) int }, perBuiltin int) []string {
 }
 
 var c05Hand = []string{
+	// folds that start from a neutral element ({} / [] / "" / 0 / null): the accumulator must not become one of the operands
+	"[{}, .[]?] | add", "[null, {}, .[]?] | add?", "[{}, $v, .] | add?", "add({}, $v, .)?", "[{}, .a?, .c?] | add?", "[[], .[]?] | add?", "[\"\", .[]?] | add?", "[0, .[]?] | add?", "[null, .[]?] | add?", "[{}, {}, null, .[]?] | add?",
+	"reduce .[]? as $x ({}; . + $x)?", "reduce .[]? as $x (null; . + $x)?", "reduce .[]? as $x ([]; . + $x)?", "reduce .[]? as $x ({}; . * $x)?", "({} + .) | .zz = 1?", "(. + {}) | .zz = 1?", "([] + .) | .[0] = 1?", "(. + []) | .[0] = 1?", "(null + .) | .[0]? = 1",
+	"({} * .) | .zz = 1?", "[{}, {\"a\": 1}, {\"b\": 2}] | add", "[{}, {\"a\": {\"b\": 1}}, {\"a\": {\"c\": 2}}] | reduce .[] as $x ({}; . * $x)", "[[], [1], [2]] | add", "[{}, .[]?] | add | .zz = 1?", "[[], .[]?] | add | .[0] = 1?", "[.[]? | objects] | ({}, .[]) as $o | $o + {q: 1}",
+	"[{}, .[]?] | (add, add)", "[limit(2; repeat([{}, {\"a\": 1}, {\"b\": 2}] | add))]", "with_entries(.)? | . + {}", "[.[]? | . + {}?, . + []?, . + null]", "(.[0]? // {}) + (.[1]? // {})?", "first({}, .) + last({}, .)?", "[{}, .] | add | del(.a?)",
+	// scalars that are pointers underneath (integers beyond the machine word), positive and negative, as input elements,
+	// variables and literals of the compiled code: every numeric operation must compute into a fresh value
+	"[.[] | numbers | abs]", "[.[] | numbers | -(.)]", "[.[] | numbers | length]", "[.[] | numbers | (. + 1, . - 1, . * 2, . / 2, . % 3)]", "[.[] | numbers | (floor, sqrt, tostring, tojson, fabs?)]", "[.[0] % 7, .[0]]", "[.[1] % 7, .[1], (.[1] | abs), .[1]]",
+	"(-100000000000000000000) as $x | [$x, ($x | abs), $x]", "[-100000000000000000000 | abs, -(.)]", "[100000000000000000000 % 7, 100000000000000000000 % -7]", "100000000000000000000 as $x | [$x % 3, $x * -1, $x - $x, -$x, $x]",
+	"[$v[]? | numbers | abs] + [$v[]?]", "[$v[1]? | (. % 1000), abs, -(.), . * . , . + .] | length", "[.[] | numbers] | (add, min, max, sort, unique, (map(abs) | add))", "[.[2].m | abs, .] , .[2]", "reduce (.[] | numbers) as $n (0; . + $n) | [., abs]",
+	"[limit(3; repeat(-100000000000000000000 | abs))]", "[range(3) | 100000000000000000000 % (. + 7)]", "[.[] | numbers | tostring | tonumber | abs]", "[.[] | numbers | [.] | implode?]", "[.[] | numbers | pow(.; 2)?, log2?, exp10?] | length",
+	"[.[] | numbers | . as $n | [$n, -$n] | sort | .[0] | abs]", "[.[1], .[5]] | map(abs) | . == [.[0], .[0]]", "[.[] | numbers | round?, ceil?, trunc?, significand?, logb?] | length", "[.[] | numbers | (. == -., . < -., . > 0)]",
 	".a += [9]", ".a[0] = 9", ".a |= . + [9]", ".[0] += [7]", ".[0] |= . + [7]", ".c += [5]", "del(.a[0])", "del(.[0][0])", "delpaths([[\"a\", 0]])", ".a | . + [4]", ".a + .b", "[.a[], 9]", ".a[1:] + [8]", ".c + [7]", ".[1] + [6]", ".[0][:2] + [5]",
 	"add", "[.[] | arrays] | add", ".a | sort", ".[0] | sort", "sort_by(.)?", "group_by(.)?", "unique?", "reverse?", ".a | reverse", "to_entries", "with_entries(.)?", "map_values(.)?", "map(.)?", "walk(.)", "tostream", "fromstream(tostream)", "[paths]", "flatten?", ".a | flatten",
 	".[0] | to_entries", "from_entries?", "transpose?", "[limit(2; .[]?)]", "first(.[]?)", ".a[1:]", ".a[:1] + .a[1:]", ".a[:2] | . + [0]", ".d + .c", ".d | .[0] = 5", ".c | .[5] = 1", ".c |= . + [1]", ".a[1:] |= map(. * 2)", ".a[:1] = [7, 7, 7]", ".. |= .", "(.. | arrays) |= . + [0]",
